@@ -98,16 +98,23 @@ Definition remove_at {A} (n : nat) (l : list A) : list A := firstn n l ++ skipn 
 
 Inductive lplan :=
 | LDirect                              (* func(self, others...): the fused path on the member-indexed items *)
-| LMember (B : shape) (p : bplan)      (* self keeps its shape B: member i runs op(slice i of every operand expanded to B);
+| LMember (B : shape) (sd' : nat) (p : bplan)
+                                       (* the (expanded) stack of shape B is lazy, its stack dim is sd': member i runs
+                                          op(slice i along sd' of every operand expanded to B);
                                           p = what the member's own wrapper decides for those slices *)
-| LDense (p : bplan)                   (* self had to be expanded: lazy.expand is dense, lazy operands are densified *)
+| LDense (p : bplan)                   (* self had to be expanded and maybe_dense_stack gave a dense tensordict:
+                                          lazy operands are densified *)
 | LUnsliced (B : shape)                (* before D50-D51: the per-leaf closure runs on member leaves with the whole operand *)
 | LRaised.
 
 Definition slice_kind (B' : shape) (o : okind) : okind :=
   match o with KTensor _ => KTensor B' | KTd _ => KTd B' | x => x end.
 
-Definition lazy_maybe_broadcast (fixed : bool) (bs : shape) (sd : nat) (others : list okind) : lplan :=
+(* LazyStackedTensorDict.expand(shape): stack_dim = len(shape) + self.stack_dim - self.ndimension() *)
+Definition expand_stack_dim (bs : shape) (sd : nat) (B : shape) : nat := List.length B + sd - List.length bs.
+
+(* [hetero]: the members cannot be stacked densely (exclusive keys, heterogeneous shapes) — the expanded stack stays lazy *)
+Definition lazy_maybe_broadcast (fixed hetero : bool) (bs : shape) (sd : nat) (others : list okind) : lplan :=
   if negb (existsb (needs_bcast bs) others) then LDirect else
   match sequence (map oshape others) with
   | None => LRaised
@@ -119,8 +126,12 @@ Definition lazy_maybe_broadcast (fixed : bool) (bs : shape) (sd : nat) (others :
           let dense := if existsb is_tensor others
                        then (if existsb is_td others then BRaised else BPerLeaf B)
                        else BRecurse B in
+          let member := fun sd' => LMember B sd' (maybe_broadcast (remove_at sd' B) (map (slice_kind (remove_at sd' B)) others)) in
           if shape_eqb B bs
-          then (if fixed then LMember B (maybe_broadcast (remove_at sd B) (map (slice_kind (remove_at sd B)) others))
+          then (if fixed then member sd
+                else if existsb is_tensor others then LUnsliced B else LDense dense)
+          else if hetero
+          then (if fixed then member (expand_stack_dim bs sd B)      (* stack_dim = self_expand.stack_dim *)
                 else if existsb is_tensor others then LUnsliced B else LDense dense)
           else LDense dense
       end
